@@ -1453,6 +1453,10 @@ def check_case(chk, seq, ep, m_rev, m_cyc, m_tab):
     return im
 
 
+USES_TRANSLATOR = True          # rf_x, rf_y, rf_m, rf_left_* (three-point rule of rainflow.cycles) are regenerated from the source
+ANCHOR_PREFIX = ("rf_",)
+
+
 def run(chk):
     import qats  # noqa
     chk.extra["rule"] = RULE
